@@ -482,3 +482,33 @@ M('C06', 'c06-order-by-last-assignment', 'openhtf/core/measurements.py',
   "    self.value_dict[coordinates] = value\n",
   "    self.value_dict.pop(coordinates, None)\n    self.value_dict[coordinates] = value\n",
   'an overridden coordinate moves to the end (order of last assignment)')
+
+# ---------------------------------------------------------------- C17
+M('C17', 'c17-publish-in-finally', 'openhtf/output/callbacks/__init__.py',
+  "      except BaseException:\n        # Never publish a partially written record.\n        if hasattr(output_file, 'discard'):\n          output_file.discard()\n        else:\n          output_file.close()\n        raise\n      else:\n        output_file.close()",
+  "      finally:\n        output_file.close()",
+  'staged file published even when serialization failed (F13 regression)')
+M('C17', 'c17-write-in-place', 'openhtf/output/callbacks/__init__.py',
+  "    self.temp = tempfile.NamedTemporaryFile(delete=False)",
+  "    self.temp = open(filename, 'wb')",
+  'record written directly to the destination path')
+M('C17', 'c17-copy-instead-of-rename', 'openhtf/output/callbacks/__init__.py',
+  "    shutil.move(self.temp.name, self.filename)\n\n  def discard",
+  "    shutil.copyfile(self.temp.name, self.filename)\n    os.remove(self.temp.name)\n\n  def discard",
+  'staged file copied to the destination instead of renamed')
+M('C17', 'c17-atomic-write-rename-in-finally', 'openhtf/util/atomic_write.py',
+  "    os.rename(tmpf.name, filename)\n  finally:\n    try:\n      os.remove(tmpf.name)",
+  "  finally:\n    try:\n      os.rename(tmpf.name, filename)\n      os.remove(tmpf.name)",
+  'atomic_write publishes whatever was written even if the body raised')
+M('C17', 'c17-atomic-write-in-place', 'openhtf/util/atomic_write.py',
+  "    with open(tmpf.name, 'w') as curfile:",
+  "    with open(filename, 'w') as curfile:",
+  'atomic_write writes to the destination directly')
+M('C17', 'c17-bytes-as-chunks', 'openhtf/output/callbacks/__init__.py',
+  "      elif isinstance(serialized_record, bytes):\n        # bytes is Iterable too, but iterating it yields ints.\n        outfile.write(serialized_record)\n",
+  "",
+  'bytes serialization iterated as ints again (F21 regression)')
+M('C17', 'c17-json-drops-last-chunk', 'openhtf/output/callbacks/__init__.py',
+  "        for chunk in serialized_record:\n          outfile.write(chunk.encode() if isinstance(chunk, str) else chunk)",
+  "        prev = None\n        for chunk in serialized_record:\n          if prev is not None: outfile.write(prev.encode() if isinstance(prev, str) else prev)\n          prev = chunk",
+  'last chunk of the serialization never written')
